@@ -1,15 +1,15 @@
 typedef unsigned long u64;
-u64 ga = 866; u64 gb = 100; u64 gc_[4] = {1,2,3,41}; static u64 sa = 271; static u64 sb[3] = {444,5,6};
+u64 ga = 655; u64 gb = 22; u64 gc_[4] = {1,2,3,149}; static u64 sa = 325; static u64 sb[3] = {600,5,6};
 __thread u64 tva = 3; __thread u64 tvb = 4;
 extern u64 ext_a, ext_b; extern u64 ext_f(u64); extern u64 ext_g(u64);
-__attribute__((noinline)) u64 fn0(u64 x) { return x * 529 + ga + sb[0]; }
-__attribute__((noinline)) static u64 sf0(u64 x) { return (x ^ 866) + sa + gb; }
-__attribute__((noinline)) u64 fn1(u64 x) { return x * 331 + ga + sb[1]; }
-__attribute__((noinline)) static u64 sf1(u64 x) { return (x ^ 100) + sa + gb; }
-__attribute__((noinline)) u64 fn2(u64 x) { return x * 49 + ga + sb[2]; }
-__attribute__((noinline)) static u64 sf2(u64 x) { return (x ^ 41) + sa + gb; }
-__attribute__((noinline)) u64 fn3(u64 x) { return x * 933 + ga + sb[0]; }
-__attribute__((noinline)) static u64 sf3(u64 x) { return (x ^ 271) + sa + gb; }
+__attribute__((noinline)) u64 fn0(u64 x) { return x * 603 + ga + sb[0]; }
+__attribute__((noinline)) static u64 sf0(u64 x) { return (x ^ 655) + sa + gb; }
+__attribute__((noinline)) u64 fn1(u64 x) { return x * 495 + ga + sb[1]; }
+__attribute__((noinline)) static u64 sf1(u64 x) { return (x ^ 22) + sa + gb; }
+__attribute__((noinline)) u64 fn2(u64 x) { return x * 15 + ga + sb[2]; }
+__attribute__((noinline)) static u64 sf2(u64 x) { return (x ^ 149) + sa + gb; }
+__attribute__((noinline)) u64 fn3(u64 x) { return x * 267 + ga + sb[0]; }
+__attribute__((noinline)) static u64 sf3(u64 x) { return (x ^ 325) + sa + gb; }
 u64 (*const ftab[])(u64) = {fn0, fn1, fn2, fn3, sf0, sf1, sf2, sf3};
 u64 *ptab[] = { &ga, &gb, &gc_[2], &sa, &sb[1], &ext_a };
 __attribute__((constructor)) static void ctor_a(void) { ga += 1; }
